@@ -160,7 +160,13 @@ func StrBytes(name string, n int) string {
 
 func Assume(c bool) {
 	if !c {
-		assumeBad = true
+		// an assumption that breaks only AFTER an assertion has failed does not invalidate the replay: the
+		// symbolic path ended at that assertion, and the inputs declared after it were never solved for
+		mu.Lock()
+		if len(failures) == 0 {
+			assumeBad = true
+		}
+		mu.Unlock()
 		panic(stopReplay{})
 	}
 }
